@@ -12,6 +12,8 @@ def _split(n):
         while b is not None and b.k == 'MemberExpr' and not b.n:
             b = b.child('base')
         bk = lvalue_key(b)
+        if bk is None and b is not None:
+            bk = 'expr:' + ' '.join(b.text().split())      # a component of a computed vector, e.g. (min0 + offsets[i]).x
         return bk, n.n
     if n.k == 'ArraySubscriptExpr' and n.child('idx') is not None and n.child('idx').cv is not None:
         return '%s[%d]' % (lvalue_key(n.child('base')), n.child('idx').cv), None
